@@ -343,3 +343,172 @@ Proof.
     + rewrite prune_space_other by exact Hn0. eapply space_ok_ext; [apply HT|]. intros q. symmetry.
       apply (withdraw_cnt_other s sid space st st' (fun q => mem_str q ps) HC ES HB' Hacct Hh). congruence.
 Qed.
+
+(* ------------------------------------------------------------------ a stream leaves the pool in the middle of handleSubscribe *)
+(* [handle_sub_mid] follows the lock regions of the Go code.  Its resulting state is, structurally, the state
+   reached by whole-handler events: the Subscribe, (if the subscribing stream itself left the pool before
+   AddTagsCtx) an Unsubscribe of exactly the accepted patterns — that is what the roll-back amounts to —, and
+   the removal of the victim with its close hook. *)
+
+Lemma ndel_nset_same : forall {V} k (v : V) l, ndel k (nset k v l) = ndel k l.
+Proof.
+  induction l as [|[k2 v2] l IH]; cbn [nset ndel].
+  - rewrite N.eqb_refl. reflexivity.
+  - destruct (N.eqb k k2) eqn:E; cbn [ndel]; rewrite ?N.eqb_refl, ?E; [reflexivity|]. rewrite IH. reflexivity.
+Qed.
+
+Lemma ndel_nset_comm : forall {V} k k' (v : V) l, k <> k' -> ndel k (nset k' v l) = nset k' v (ndel k l).
+Proof.
+  intros V k k' v l Hne. induction l as [|[k2 v2] l IH]; cbn [nset ndel].
+  - apply N.eqb_neq in Hne. rewrite Hne. reflexivity.
+  - destruct (N.eqb k' k2) eqn:E1.
+    + apply N.eqb_eq in E1. subst k2. cbn [ndel]. apply N.eqb_neq in Hne. rewrite Hne. cbn [nset]. rewrite N.eqb_refl. reflexivity.
+    + cbn [ndel]. destruct (N.eqb k k2) eqn:E2; [exact IH|]. cbn [nset]. rewrite E1, IH. reflexivity.
+Qed.
+
+Lemma in_pool_drop_other : forall s v x, x <> v -> in_pool (drop_pool s v) x = in_pool s x.
+Proof. intros s v x H. unfold in_pool, drop_pool. cbn [sv_pool]. rewrite nassoc_ndel_other by congruence. reflexivity. Qed.
+
+(* another stream leaving the pool does not interact with the handler *)
+Lemma handle_sub_drop_comm : forall c s sid v space pats, v <> sid ->
+  handle_sub c (drop_pool s v) sid space pats
+  = (drop_pool (fst (handle_sub c s sid space pats)) v, snd (handle_sub c s sid space pats)).
+Proof.
+  intros c s sid v space pats Hne. unfold handle_sub, handle_sub_gen, reply.
+  rewrite (in_pool_drop_other s v sid) by congruence.
+  unfold is_member.
+  change (sv_conns (drop_pool s v)) with (sv_conns s). change (sv_remote (drop_pool s v)) with (sv_remote s).
+  change (sv_streams (drop_pool s v)) with (sv_streams s). change (sv_members (drop_pool s v)) with (sv_members s).
+  change (sv_rate (drop_pool s v)) with (sv_rate s). change (sv_pool (drop_pool s v)) with (ndel v (sv_pool s)).
+  destruct (nassoc sid (sv_conns s)) as [acct|]; [|reflexivity].
+  destruct (negb (memN space (resp c))); [reflexivity|].
+  destruct (negb (forallb validate_pattern pats)); [reflexivity|].
+  destruct (negb (existsb _ (sv_members s))); [reflexivity|].
+  destruct (sub_loop _ _ _ _ _ _) as [[[[sp' total'] tr'] accepted] rejected].
+  rewrite (nassoc_ndel_other v sid) by exact Hne.
+  destruct (is_nil accepted).
+  - destruct (is_nil sp'); reflexivity.
+  - destruct (nassoc sid (sv_pool s)) as [tags|].
+    + cbn [fst snd]. unfold drop_pool. cbn [sv_conns sv_remote sv_streams sv_pool sv_members sv_rate].
+      rewrite ndel_nset_comm by exact Hne. reflexivity.
+    + destruct (remove_patterns _ _ _ _ _) as [[st2 tr2] r2]. reflexivity.
+Qed.
+
+(* the subscribing stream itself leaves the pool between the recording of its interest and AddTagsCtx:
+   the roll-back is the Unsubscribe of exactly the accepted patterns *)
+Lemma handle_sub_drop_self : forall c s sid space pats,
+  in_pool s sid = true -> sub_reaches_tagging c s sid space pats = true ->
+  handle_sub c (drop_pool s sid) sid space pats
+  = (drop_pool (handle_unsub (fst (handle_sub c s sid space pats)) sid space (sub_accepted c s sid space pats)) sid, ONone).
+Proof.
+  intros c s sid space pats Hip Hr. unfold sub_reaches_tagging, sub_accepted in *.
+  unfold handle_sub, handle_sub_gen, reply.
+  assert (Hipd : in_pool (drop_pool s sid) sid = false).
+  { unfold in_pool, drop_pool. cbn [sv_pool]. rewrite nassoc_ndel_same. reflexivity. }
+  rewrite Hipd.
+  unfold is_member in *.
+  change (sv_conns (drop_pool s sid)) with (sv_conns s). change (sv_remote (drop_pool s sid)) with (sv_remote s).
+  change (sv_streams (drop_pool s sid)) with (sv_streams s). change (sv_members (drop_pool s sid)) with (sv_members s).
+  change (sv_rate (drop_pool s sid)) with (sv_rate s). change (sv_pool (drop_pool s sid)) with (ndel sid (sv_pool s)).
+  destruct (nassoc sid (sv_conns s)) as [acct|] eqn:EC; [|discriminate].
+  destruct (negb (memN space (resp c))); [discriminate|].
+  destruct (negb (forallb validate_pattern pats)); [discriminate|].
+  destruct (negb (existsb _ (sv_members s))); [discriminate|].
+  destruct (sub_loop _ _ _ _ _ _) as [[[[sp' total'] tr'] accepted] rejected].
+  destruct (is_nil accepted) eqn:En; [discriminate|].
+  rewrite nassoc_ndel_same.
+  unfold in_pool in Hip. destruct (nassoc sid (sv_pool s)) as [tags|] eqn:EP; [|discriminate].
+  cbn [fst snd]. unfold handle_unsub. cbn [sv_conns sv_remote sv_streams sv_pool sv_members sv_rate].
+  rewrite EC, !nassoc_nset_same, En.
+  destruct (remove_patterns _ _ _ _ _) as [[st2 tr2] r2].
+  unfold drop_pool. cbn [sv_conns sv_remote sv_streams sv_pool sv_members sv_rate].
+  unfold pool_remove_tags. rewrite nassoc_nset_same, !ndel_nset_same.
+  destruct (is_nil rejected); reflexivity.
+Qed.
+
+(* the whole-handler state before the victim's removal *)
+Definition mid_self (c : cfg) (s : svc) (sid victim space : N) (pats : list str) : bool :=
+  N.eqb victim sid && sub_reaches_tagging c s sid space pats && in_pool s sid.
+Definition mid_pre (c : cfg) (s : svc) (sid victim space : N) (pats : list str) : svc :=
+  let s' := fst (handle_sub c s sid space pats) in
+  if mid_self c s sid victim space pats
+  then handle_unsub s' sid space (sub_accepted c s sid space pats) else s'.
+
+Lemma inv_mid_pre : forall c s sid victim space pats, Inv s -> Inv (mid_pre c s sid victim space pats).
+Proof.
+  intros. unfold mid_pre. destruct (mid_self _ _ _ _ _ _); [apply inv_unsub|]; apply inv_sub; assumption.
+Qed.
+
+Lemma in_pool_sub : forall c s sid space pats x, in_pool (fst (handle_sub c s sid space pats)) x = in_pool s x.
+Proof.
+  intros. unfold handle_sub, handle_sub_gen.
+  destruct (nassoc sid (sv_conns s)) as [acct|]; [|reflexivity].
+  destruct (negb (memN space (resp c))); [reflexivity|].
+  destruct (negb (forallb validate_pattern pats)); [reflexivity|].
+  destruct (negb (is_member s space acct)); [reflexivity|].
+  destruct (sub_loop _ _ _ _ _ _) as [[[[sp' total'] tr'] accepted] rejected].
+  destruct (is_nil accepted); [reflexivity|].
+  destruct (nassoc sid (sv_pool s)) as [tags|] eqn:EP.
+  - cbn [fst]. unfold in_pool. cbn [sv_pool]. destruct (N.eq_dec sid x) as [<-|Hne].
+    + rewrite nassoc_nset_same, EP. reflexivity.
+    + rewrite nassoc_nset_other by exact Hne. reflexivity.
+  - destruct (remove_patterns _ _ _ _ _) as [[st2 tr2] r2]. reflexivity.
+Qed.
+
+Lemma in_pool_unsub : forall s sid space pats x, in_pool (handle_unsub s sid space pats) x = in_pool s x.
+Proof.
+  intros. unfold handle_unsub.
+  destruct (nassoc sid (sv_conns s)); [|reflexivity].
+  destruct (nassoc sid (sv_streams s)); [|reflexivity].
+  destruct (nassoc space (sv_remote s)); [|reflexivity].
+  destruct (remove_patterns _ _ _ _ _) as [[st2 tr2] r2]. unfold in_pool. cbn [sv_pool].
+  destruct (N.eq_dec sid x) as [<-|Hne].
+  - rewrite pool_remove_tags_same. destruct (nassoc sid (sv_pool s)); reflexivity.
+  - rewrite pool_remove_tags_other by exact Hne. reflexivity.
+Qed.
+
+Lemma in_pool_mid_pre : forall c s sid victim space pats x, in_pool (mid_pre c s sid victim space pats) x = in_pool s x.
+Proof.
+  intros. unfold mid_pre. destruct (mid_self _ _ _ _ _ _); [rewrite in_pool_unsub|]; apply in_pool_sub.
+Qed.
+
+(* a stream without a record: its close hook does nothing *)
+Lemma close_no_record : forall s sid, nassoc sid (sv_streams s) = None -> on_stream_close s sid = s.
+Proof. intros s sid H. unfold on_stream_close. rewrite H. reflexivity. Qed.
+
+Lemma drop_pool_absent : forall s sid, in_pool s sid = false -> drop_pool s sid = s.
+Proof.
+  intros s sid H. unfold in_pool in H. unfold drop_pool. destruct (nassoc sid (sv_pool s)) eqn:E; [discriminate|].
+  rewrite (ndel_absent _ _ E). apply svc_eta.
+Qed.
+
+Lemma close_after_drop : forall s sid, Inv s -> on_stream_close (drop_pool s sid) sid = pool_remove s sid.
+Proof.
+  intros s sid [HC _]. unfold pool_remove. destruct (in_pool s sid) eqn:E; [reflexivity|].
+  rewrite (drop_pool_absent s sid E). apply close_no_record.
+  destruct (nassoc sid (sv_streams s)) as [st|] eqn:Es; [|reflexivity].
+  destruct (c_rec s HC sid st Es) as (_ & Hp & _). congruence.
+Qed.
+
+(* THE decomposition: the lock-region model of the race equals whole-handler events *)
+Lemma mid_state : forall c s sid victim space pats, Inv s ->
+  fst (handle_sub_mid c s sid victim space pats) = pool_remove (mid_pre c s sid victim space pats) victim
+  /\ snd (handle_sub_mid c s sid victim space pats)
+     = if mid_self c s sid victim space pats then ONone else snd (handle_sub c s sid space pats).
+Proof.
+  intros c s sid victim space pats HI. unfold handle_sub_mid, handle_sub_mid_gen, mid_pre, mid_self.
+  fold (handle_sub c (drop_pool s victim) sid space pats). fold (handle_sub c s sid space pats).
+  destruct (sub_reaches_tagging c s sid space pats) eqn:Er.
+  - destruct (N.eq_dec victim sid) as [->|Hne].
+    + rewrite N.eqb_refl. cbn [andb]. destruct (in_pool s sid) eqn:Eip.
+      * rewrite (handle_sub_drop_self c s sid space pats Eip Er). cbn [fst snd]. split; [|reflexivity].
+        apply close_after_drop. apply inv_unsub. apply inv_sub. exact HI.
+      * rewrite (drop_pool_absent s sid Eip). destruct (handle_sub c s sid space pats) as [s2 o] eqn:E. cbn [fst snd].
+        split; [|reflexivity]. replace s2 with (fst (handle_sub c s sid space pats)) by (rewrite E; reflexivity).
+        rewrite <- close_after_drop by (apply inv_sub; exact HI).
+        rewrite drop_pool_absent; [reflexivity|]. rewrite in_pool_sub. exact Eip.
+    + apply N.eqb_neq in Hne as Hb. rewrite Hb. cbn [andb].
+      rewrite (handle_sub_drop_comm c s sid victim space pats Hne). cbn [fst snd]. split; [|reflexivity].
+      apply close_after_drop. apply inv_sub. exact HI.
+  - rewrite andb_false_r. cbn [andb]. destruct (handle_sub c s sid space pats) as [s2 o]. split; reflexivity.
+Qed.
